@@ -406,16 +406,69 @@ def scalar_templates(rng):
     ]
 
 
+def extraneous_templates(rng):
+    """equations whose candidate-root set (after squaring / clearing denominators) contains a spurious root that sorts first.
+    Integer constants, so that the genuine root is an integer literal.  (name, equations, unknowns, hyps, proof, positive, strict)"""
+    x = S_(X)
+    I = lambda n: ("int", n)
+    add = lambda a, b: ("sadd", a, b)
+    mul = lambda a, b: ("smul", a, b)
+    out = []
+    # sqrt(x + a) = x - b  with genuine root r = b + m (m >= 2) and spurious root b + 1 - m < r
+    m = rng.choice([2, 3, 4])
+    b = rng.choice([0, 1, 2, 3])
+    r = b + m
+    a = m * m - r
+    for positive in (False, True):
+        if positive and b + 1 - m <= 0:
+            b2 = m                      # keeps the spurious root positive as well
+            r2, a2 = b2 + m, m * m - (b2 + m)
+        else:
+            b2, r2, a2 = b, r, a
+        proof = (f"intros. cbv beta. replace ({r2} + {vx.zlit(a2)}) with ({m} * {m}) by ring. rewrite sqrt_square by lra. ring.")
+        out.append(("radical" + ("_positive" if positive else ""), [(("ssqrt", add(x, I(a2))), add(x, I(-b2)))], [X], [], proof, positive, False))
+    # sqrt(c x + d) = x   (c x + d = x^2 with roots p > 0 > q):  c = p + q, d = -p q
+    pr, q = rng.choice([(3, -1), (4, -1), (5, -2), (6, -2)])
+    c, d = pr + q, -pr * q
+    proof = f"intros. cbv beta. replace ({c} * {pr} + {d}) with ({pr} * {pr}) by ring. rewrite sqrt_square by lra. ring."
+    out.append(("radical_linear", [(("ssqrt", add(mul(I(c), x), I(d))), x)], [X], [], proof, False, False))
+    out.append(("radical_linear_positive", [(("ssqrt", add(mul(I(c), x), I(d))), x)], [X], [], proof, True, False))
+    # ((x - a)(x - b)) / (x - a) = c : genuine root b + c, spurious root a < b + c (the equation is undefined there)
+    a_, b_ = rng.choice([(1, 2), (2, 5), (-1, 3), (0, 4)])
+    c_ = rng.choice([1, 3, 4])
+    num = mul(add(x, I(-a_)), add(x, I(-b_)))
+    proof = "intros. cbv beta. first [ lra | field; lra ]."
+    out.append(("rational_removable", [(("sdiv", num, add(x, I(-a_))), I(c_))], [X], [], proof, False, True))
+    # x / (x - a) = a / (x - a) + k : clearing the denominator gives x = a + k (x - a), i.e. (1 - k)(x - a) = 0
+    out.append(("rational_sum", [(add(("sdiv", I(a_ + 7), add(x, I(-a_))), x), add(("sdiv", I(a_ + 7), add(x, I(-a_))), I(a_ + c_)))], [X], [],
+        "intros. cbv beta. first [ lra | field; lra ].", False, True))
+    # the same radical with a norm added on both sides, and with a symbolic common coefficient
+    proof = (f"intros. cbv beta. replace ({r} + {vx.zlit(a)}) with ({m} * {m}) by ring. rewrite sqrt_square by lra. ring.")
+    out.append(("radical_plus_norm", [(add(("ssqrt", add(x, I(a))), ("norm", V(0))), add(add(x, I(-b)), ("norm", V(0))))], [X], [], proof,
+        False, False))
+    out.append(("radical_scaled", [(mul(S_(0), ("ssqrt", add(x, I(a)))), mul(S_(0), add(x, I(-b))))], [X], ["s0 <> 0"], proof, False, False))
+    # sqrt(x + k^2) = x - 2 with a symbolic parameter: sympy cannot verify the candidates
+    out.append(("radical_parametric", [(("ssqrt", add(x, mul(S_(0), S_(0)))), add(x, I(-2)))], [X], [],
+        "intros. cbv beta. timeout 30 (solve [nsatz]).", False, False))
+    return out
+
+
 def solve_scalar_cases(ctx):
     from symplyphysics.core.experimental.solvers import solve_for_scalar  # pylint: disable=import-outside-toplevel
     rng = ctx.rng
     lemmas, info = [], {}
     n = 0
     for rep in range(ctx.pick(3, 12)):
-        for name, eqs, unknowns, hyps, prod in scalar_templates(rng):
+        templates = [(name, eqs, unknowns, hyps, prod, None, False, False) for name, eqs, unknowns, hyps, prod in scalar_templates(rng)]
+        templates += [(name, eqs, unknowns, hyps, "custom", proof, positive, strict)
+            for name, eqs, unknowns, hyps, proof, positive, strict in extraneous_templates(rng)]
+        for name, eqs, unknowns, hyps, prod, custom_proof, positive, strict in templates:
             n += 1
             nv, ns = 2, 5
             o = vx.Objs(nv, ns)
+            if positive:
+                for u in unknowns:
+                    o.scals[u] = sympy.Symbol(f"s{u}", positive=True)
             objs = [sympy.Eq(vx.build(l, o), vx.build(r, o), evaluate=False) for l, r in eqs]
             shown = "; ".join(f"{vx.show_recipe(l)} = {vx.show_recipe(r)}" for l, r in eqs)
             base = {"kind": "solve_for_scalar", "template": name, "equations": shown}
@@ -424,12 +477,20 @@ def solve_scalar_cases(ctx):
             try:
                 sols = solve_for_scalar(arg, sym)
             except Exception as e:  # pylint: disable=broad-except
+                if name == "radical_parametric":
+                    # no equation is returned, so nothing unsound is claimed (sympy cannot verify either candidate)
+                    ctx.coverage.setdefault("solve_for_scalar_refused", []).append(f"{shown}: {type(e).__name__}")
+                    continue
                 ctx.violation(f"C16:sfs:exception:{name}", f"solve_for_scalar({shown}) raises {type(e).__name__}: {e}"[:300],
                     {**base, "observed": f"{type(e).__name__}: {e}"[:300], "expected": "equations"}, True)
                 continue
             base["observed"] = str(sols)
             c = vx.OutCtx(o)
             sol = {}
+            if any(not isinstance(e, sympy.Eq) for e in sols):
+                ctx.violation(f"C16:sfs:{name}", f"solve_for_scalar({shown}) returns {sols}: an answer that contradicts the assumptions on the "
+                    "unknown collapses to a truth value instead of an equation", {**base, "expected": "equations satisfied by the solution"}, True)
+                continue
             try:
                 for e in sols:
                     idx = o.scals.index(e.lhs)
@@ -451,7 +512,13 @@ def solve_scalar_cases(ctx):
                     for u in unknowns:
                         env.scals[u] = vx.eval_sympy(sol[u][1], c, env, "s")
                     for l, r in eqs:
-                        lv, rv = vx.eval_recipe(l, env), vx.eval_recipe(r, env)
+                        try:
+                            lv, rv = vx.eval_recipe(l, env), vx.eval_recipe(r, env)
+                        except (ZeroDivisionError, ValueError) as ex:
+                            if strict or (custom_proof is not None and isinstance(ex, ValueError)):
+                                bad = (env, l, r, f"undefined ({type(ex).__name__}: {ex})", "")      # the equation is undefined there
+                                break
+                            raise
                         if not vx.close(lv, rv):
                             bad = (env, l, r, lv, rv)
                 except (ZeroDivisionError, ValueError):
@@ -471,7 +538,9 @@ def solve_scalar_cases(ctx):
                 fun = "fun " + " ".join(f"s{u}" for u in unknowns) + f" => {body}"
                 app = " ".join(f"({sol[u][0]})" for u in unknowns)
                 stmt = f"forall (v0 v1 : V3) ({params} : R), " + "".join(f"{h} -> " for h in hyps) + f"({fun}) {app}"
-                if prod is None:
+                if custom_proof is not None:
+                    proof = custom_proof
+                elif prod is None:
                     steps = ["intros. cbv beta."]
                     for si, sq in enumerate(sqrts):
                         steps.append(f"assert (Hq{si} : sqrt ({sq}) * sqrt ({sq}) = {sq}) by (apply sqrt_sqrt; nra).")
@@ -522,7 +591,7 @@ def collect_sqrt(text):
 
 
 def show(v):
-    return vx.show_value(v)
+    return v if isinstance(v, str) else vx.show_value(v)
 
 
 # ---------------------------------------------------------------------------------------------
